@@ -288,6 +288,8 @@ struct decl {
 			/* the function might have an "inline definition" (C11 6.7.4p7) */
 			bool inlinedefn;
 			bool isnoreturn;
+			/* body of an inline definition, in case a later declaration makes it external */
+			struct func *inlinebody;
 		} func;
 		unsigned long long enumconst;
 		enum builtinkind builtin;
